@@ -243,6 +243,15 @@ theorem safe_readBytes (file : Nat) (loc : BlockHandle) :
   intro w hw
   exact safe_readAt file loc.offset loc.size { w with allocs := loc.size :: w.allocs } hw
 
+theorem safe_decompressGuarded (data : Bytes) :
+    Safe CacheValid (decompressGuarded data) (fun d => d.length < 2 ^ 64) := by
+  intro w hw
+  refine ⟨cacheValid_of_cache (by rw [decompressGuarded_world]) hw, ?_⟩
+  rw [decompressGuarded_result]
+  cases hd : Snappy.decode data with
+  | some d => exact .inl ⟨d, rfl, snappy_small _ _ hd⟩
+  | none => exact .inr ⟨_, rfl⟩
+
 theorem safe_readBlockContents (file : Nat) (loc : BlockHandle) (hs : loc.size < 2 ^ 64) :
     Safe CacheValid (readBlockContents file loc) (fun d => d.length < 2 ^ 64) := by
   unfold readBlockContents
@@ -255,10 +264,7 @@ theorem safe_readBlockContents (file : Nat) (loc : BlockHandle) (hs : loc.size <
     · refine safe_pure _ ?_
       rw [List.length_take]; omega
     · split
-      · split
-        · rename_i d hd
-          exact safe_pure _ (snappy_small _ _ hd)
-        · exact safe_fail _
+      · exact safe_decompressGuarded _
       · exact safe_fail _
 
 theorem safe_readTableBlock (file : Nat) (loc : BlockHandle) (hs : loc.size < 2 ^ 64) :
@@ -364,7 +370,7 @@ theorem safe_readFooter (file size : Nat) : Safe CacheValid (Table.readFooter fi
   unfold Table.readFooter
   split
   · exact safe_fail _
-  · refine safe_bind (safe_readAt _ _ _) ?_
+  · refine safe_bind (safe_readBytes _ _) ?_
     intro buf _
     split
     · exact safe_pure _ trivial
